@@ -481,6 +481,11 @@ def branch_reach(rng, df, date, params):
     df.loc[early, "jahr_renteneintr"] = np.minimum(df.loc[early, "geburtsjahr"] + R.integers(60, 66, int(early.sum())), year)
     df.loc[early, "bruttolohn_m"] = R.choice([0.0, 400.0, 525.0, 526.0, 1200.0, 3000.0, 4000.0, 9000.0], int(early.sum()))
     df.loc[early, "höchster_bruttolohn_letzte_15_jahre_vor_rente_y"] = R.choice([0.0, 20000.0, 60000.0], int(early.sum()))
+    # children / young adults in the parental household with self-employment income but no wage
+    young = (alter >= 15) & (alter < 25) & (df["p_id_elternteil_1"].to_numpy() >= 0) & (R.random(n) < 0.4)
+    df.loc[young, "eink_selbst_m"] = R.choice([150.0, 400.0, 1200.0], int(young.sum()))
+    df.loc[young, "bruttolohn_m"] = 0.0
+    df.loc[young, "selbstständig"] = True
     return df
 
 
